@@ -4,7 +4,7 @@ use crate::choices::Lane;
 use crate::engine::Counters;
 
 pub const WIRE_KINDS: &[&str] = &[
-    "W-FLIP", "W-TRUNC-LEN", "W-TRUNC-BYTES", "W-EXTEND", "W-INS", "W-DEL", "W-INSBIT", "W-DELBIT", "W-OVERWRITE", "W-SPLICE", "W-RANDOM",
+    "W-FLIP", "W-TRUNC-LEN", "W-TRUNC-BYTES", "W-EXTEND", "W-INS", "W-DEL", "W-INSBIT", "W-DELBIT", "W-OVERWRITE", "W-SPLICE", "W-RANDOM", "W-BIGNUM",
 ];
 
 #[derive(Debug, Clone)]
@@ -198,6 +198,49 @@ pub fn apply_bits(
             *bit_len = cut + (ol - from);
             *bytes = nb;
             Some(Applied { kind, text: format!("splice: bits 0..{cut} then bits {from}..{ol} of another stream"), first_bit: cut })
+        }
+        "W-BIGNUM" => {
+            // field saturation: at a structurally interesting bit (a flag / index / determinant located by
+            // the tracing pass) a near-maximal number in PER's long forms is written over the delivery:
+            // [flag bits][length octet L][L octets of ones] - the shape of a "normally small" number >= 64,
+            // of a semi-constrained / unconstrained integer and of an extension-addition count. Values
+            // near u64::MAX are what unchecked `+ 1`, `* 8`, `pos + n`, `as usize` arithmetic trips over.
+            let at = if *bit_len == 0 { 0 } else { pick_bit(lane, *bit_len, targets) };
+            let prefix: &[bool] = match lane.draw(5) {
+                0 => &[],
+                1 => &[true],
+                2 => &[true, true],
+                3 => &[false, true],
+                _ => &[true, false, true],
+            };
+            let l = [8u8, 8, 8, 7, 9, 4][lane.draw(6) as usize];
+            let last = [0xffu8, 0xff, 0xfe, 0xfc, 0x7f][lane.draw(5) as usize];
+            let mut pattern: Vec<bool> = prefix.to_vec();
+            for k in (0..8).rev() {
+                pattern.push(l >> k & 1 == 1);
+            }
+            for o in 0..l {
+                let byte = if o + 1 == l { last } else { 0xff };
+                for k in (0..8).rev() {
+                    pattern.push(byte >> k & 1 == 1);
+                }
+            }
+            let keep_len = lane.draw(3) == 0;
+            let end = at + pattern.len();
+            if (end + 7) / 8 > bytes.len() {
+                bytes.resize((end + 7) / 8, 0);
+            }
+            for (k, b) in pattern.iter().enumerate() {
+                set_bit(bytes, at + k, *b);
+            }
+            if !keep_len && end > *bit_len {
+                *bit_len = end;
+            }
+            // (keep_len: the declared length stays, i.e. the bitmap / content behind the number is cut off)
+            if keep_len && *bit_len < at + prefix.len() + 8 {
+                *bit_len = (at + prefix.len() + 8 + l as usize * 8).min(bytes.len() * 8);
+            }
+            Some(Applied { kind, text: format!("near-maximal number at bit {at}: prefix {:?}, length octet {l}, {l} octets of ones ending {last:#04x}{}", prefix, if keep_len { ", declared length kept" } else { "" }), first_bit: at })
         }
         "W-RANDOM" => {
             let n = lane.draw(40) as usize;
